@@ -12,6 +12,7 @@ import YangVerif.Drv.C09
 import YangVerif.Drv.C12
 import YangVerif.Drv.C15
 import YangVerif.Drv.C19
+import YangVerif.Drv.C07
 
 def dispatch (line : String) : String :=
   match (line.trimAscii.toString.splitOn " ").filter (· ≠ "") with
@@ -24,6 +25,7 @@ def dispatch (line : String) : String :=
   | "c09" :: rest => YangVerif.Drv.C09.handle rest
   | "c12" :: rest => YangVerif.Drv.C12.handle rest
   | "c15" :: rest => YangVerif.Drv.C15.handle rest
+  | "c07" :: rest => YangVerif.Drv.C07.handle rest
   | "c19" :: rest => YangVerif.Drv.C19.handle rest
   | _ => "bad-op"
 
